@@ -47,6 +47,10 @@ TABLE = {
             'Every variant is proven to return exactly the documented finite-difference / log / arccosh / averaging formula on the referenced slices (value and every fluctuation), '
             'to be undefined exactly where stated, and to raise only when no output slice is defined; the cosh/sinh variants satisfy the root equation and the implicit-function rule under the fsolve contract.',
             'Real-number semantics; T<=6; fsolve replaced by its contract; plateau by fit is covered through C07 (constant model).'),
+    'C09': (True, 'symbolic execution of find_root and integrate.quad behind contract stubs (fsolve = some root, quad = registered antiderivative with integrand check); SMT (QF_NRA) obligations',
+            'f(x,d)=0 at the central values, the implicit-function rule f_x dx + f_d dd = 0 for every fluctuation and gradient, equality with the directly applied inverse (invertible '
+            'families) and, for quad, equality of value and all fluctuations with the one-shot propagation of F(p,b)-F(p,a) are proven for all sample values.',
+            'Real-number semantics; fsolve / QUADPACK replaced by their contracts; function families enumerated.'),
 }
 
 NOT_YET = 'check not built yet in this session (work in progress; see DESIGN.md section 4 for the plan)'
